@@ -496,7 +496,9 @@ def run_cold(world, cmd, args, stdin=b'', plan=None, cwd=None, env=None,
     e.update({'TRASHCLI_VERIF': '1', 'VF_PLAN': planpath,
               'PYTHONPATH': os.path.join(HERE, 'boot') + os.pathsep + REPO,
               'PYTHONDONTWRITEBYTECODE': '1', 'LC_ALL': 'C.UTF-8',
-              'PYTHONIOENCODING': 'utf-8:strict', 'PYTHONHASHSEED': '0'})
+              'PYTHONIOENCODING': '%s:strict' % (
+                  (plan or {}).get('stdout_encoding') or 'utf-8'),
+              'PYTHONHASHSEED': '0'})
     if COLD_LOCALE:
         e.update(COLD_LOCALE)        # the locale this case asks for
     t0 = time.monotonic()
